@@ -9,6 +9,7 @@ import (
 	"testing"
 
 	"github.com/keep-network/keep-core/internal/testutils"
+	"github.com/keep-network/keep-core/pkg/net"
 	"github.com/keep-network/keep-core/pkg/verifshim/vctx"
 	"github.com/keep-network/keep-core/pkg/verifshim/vrep"
 	"github.com/keep-network/keep-core/pkg/verifshim/vsched"
@@ -55,10 +56,11 @@ func c17Body(sc c17Scenario, obs *c17Obs) func() {
 		ticker := NewTicker(ticks)
 		ctx, cancel := vctx.WithCancel(context.Background())
 		var inner Strategy
+		// through the factory the channels use
 		if sc.Strategy == "backoff" {
-			inner = WithBackoffStrategy()
+			inner = WithStrategy(net.BackoffRetransmissionStrategy)
 		} else {
-			inner = WithStandardStrategy()
+			inner = WithStrategy(net.StandardRetransmissionStrategy)
 		}
 		st := &c17Counting{inner: inner, obs: obs}
 		// one retransmission attempt may fail (publish error): the schedule is a schedule
@@ -147,6 +149,27 @@ func TestVerifC17(t *testing.T) {
 			evaluate(rp.Scenario, rp.Bound, s)
 		}
 		return
+	}
+	// Two messages sent with the same strategy kind have independent schedules (a channel
+	// asks the factory for a strategy per Send): alternate 12 ticks between two strategies
+	// from the factory, sequentially.
+	for _, kind := range []net.RetransmissionStrategy{net.StandardRetransmissionStrategy, net.BackoffRetransmissionStrategy} {
+		a, b := WithStrategy(kind), WithStrategy(kind)
+		var na, nb int
+		for i := 1; i <= 12; i++ {
+			_ = a.Tick(func() error { na++; return nil })
+			_ = b.Tick(func() error { nb++; return nil })
+			wa := i
+			if kind == net.BackoffRetransmissionStrategy {
+				wa = c17Backoff(i)
+			}
+			if na != wa || nb != wa {
+				r.ViolationMin("two-messages", i, fmt.Sprintf("two messages, strategy %v", kind),
+					fmt.Sprintf("after %d ticks each, two messages sent with the same strategy were retransmitted %d and %d times, the schedule demands %d for each", i, na, nb, wa), nil)
+				break
+			}
+		}
+		r.Eval(1)
 	}
 	maxBound, ticks := 2, []int{3}
 	if r.Thorough() {
